@@ -66,6 +66,22 @@ def run_point(arg):
             e = dict(env); e["RTDRV_SHORTWRITE"] = str(k)
             r = rt.run_script(drv, script, wd, env=e, timeout=120, inline=True)
             res["fired"] = "shortwrites=0" not in r.out
+        elif sc == "FSIZE":
+            # a file size limit k bytes below the size of the stream, in force from just before
+            # ovni_thread_free: the kernel then hands out genuine short counts and EFBIG to whatever call
+            # the relocation is made of
+            r0 = rt.run_script(drv, script, wd, env=env, timeout=120, inline=True)
+            sd0 = obs.find_streams(os.path.join(wd, "trace"))
+            if r0.rc != 0 or len(sd0) != 1:
+                return res
+            size = os.path.getsize(os.path.join(sd0[0], "stream.obs"))
+            shutil.rmtree(wd, ignore_errors=True); os.makedirs(wd)
+            env = c09.mode_env(mode, wd)
+            lines = script.rstrip("\n").split("\n")
+            kf = len(lines) - 1 - lines[::-1].index("free")
+            lines.insert(kf, "fsize %d" % max(1, size - k))
+            r = rt.run_script(drv, "\n".join(lines) + "\n", wd, env=env, timeout=120, inline=True)
+            res["fired"] = True
         else:
             paths = None
             if onpath:
@@ -112,8 +128,8 @@ def run_point(arg):
             if prob:
                 lost = any(not complete_copy([final] + ([tmp] if tmp else []), tid, recs) for tid, recs in logs.items())
                 key = "silent-loss" if lost else "silent-incomplete"
-                place = "relocation" if (tmp and sc in ("read", "write", "openat", "close", "unlink", "getdents64")
-                                         and _in_relocation(log, tmp, final)) else "run"
+                place = "relocation" if sc == "FSIZE" or (tmp and sc in ("read", "write", "openat", "close", "unlink", "getdents64")
+                                                           and _in_relocation(log, tmp, final)) else "run"
                 res["viol"] = ("%s:%s:%s:%s" % (key, mode, sc, place),
                                "the driver returned normally (exit 0%s) after %s #%d failed with %s, but %s%s"
                                % (", warnings only" if diag else ", no message", sc, k, err, prob,
@@ -194,6 +210,9 @@ def main(argv):
             npoints["%s/%s" % (name, mode)] = len(pts)
             for seed in range(1, 6 if quick else 30):
                 work.append((name, script, mode, "SHORTWRITE", seed, "partial"))
+            if mode == "tmp-tmpfs" and "bulk" not in script:
+                for delta in ([1, 100, 4097, 6000] if quick else [1, 2, 100, 1023, 1025, 4095, 4097, 6000, 8000]):
+                    work.append((name, script, mode, "FSIZE", delta, "EFBIG"))
     # two threads relocating one after the other (the first has finished before the
     # second is freed): a fault that hits only the first thread's files
     two = c09.script_two_ordered()
